@@ -25,8 +25,9 @@ fn listener_order() -> Vec<u8> {
 }
 
 /// Runs one abstract history on the real tower and renders the line.
-pub fn run_history(h: &gen::AHistory, init: &[(u64, bitcoin::Block)], dir: PathBuf) -> String {
+pub fn run_history(h: &gen::AHistory, init: &[(u64, bitcoin::Block)], dir: PathBuf, rec: &verif_harness::locks::Recorder) -> String {
     let mut w = World::new(h.cfg, dir.clone(), init, listener_order());
+    rec.take_edges();
     let mut line = Line::new();
     line.tok("TW").tok(h.cfg.slots).tok(h.cfg.duration).tok(h.cfg.delta).tok(INIT_HEIGHT).tok(h.steps.len());
     for st in &h.steps {
@@ -37,13 +38,22 @@ pub fn run_history(h: &gen::AHistory, init: &[(u64, bitcoin::Block)], dir: PathB
         let ok = w.exec(&op, &st.script, &mut line);
         line.tok("|");
         w.rpc_tokens(&mut line);
+        // lock-order edges (held -> requested) of this step, through hook H3
+        let edges = rec.take_edges();
+        line.tok("|").tok(edges.len());
+        for (a, b) in &edges {
+            line.tok(a).tok(b);
+        }
         if !ok {
+            rec.reset_thread();
             let alive = w.alive();
+            rec.take_edges();
             line.tok("|").tok("alive").tok(alive as u8).tok(";");
             break;
         }
         line.tok("|");
         w.state_tokens(&mut line);
+        rec.take_edges();
         line.tok(";");
     }
     drop(w);
@@ -60,6 +70,7 @@ fn main() {
     verif_harness::install_panic_hook();
     verif_harness::install_null_logger();
     let init = initial_chain();
+    let rec = verif_harness::locks::Recorder::install();
     match args[1].as_str() {
         "gen" => {
             let shard: u64 = args.get(3).and_then(|s| s.parse().ok()).unwrap_or(0);
@@ -76,7 +87,7 @@ fn main() {
                 }
                 let mut rng = Rng::new(seed ^ (i.wrapping_mul(0x9E37_79B9)) ^ 0x70FE);
                 let h = gen::generate(&mut rng, &profile, i);
-                let l = run_history(&h, &init, dir.clone());
+                let l = run_history(&h, &init, dir.clone(), &rec);
                 writeln!(out, "{l}").unwrap();
             }
             out.flush().unwrap();
@@ -87,7 +98,7 @@ fn main() {
             let dir = work_dir("replay");
             for l in text.lines() {
                 if let Some(h) = gen::parse_history(l) {
-                    let l = run_history(&h, &init, dir.clone());
+                    let l = run_history(&h, &init, dir.clone(), &rec);
                     writeln!(out, "{l}").unwrap();
                 }
             }
